@@ -12,6 +12,7 @@ CONSTANTS
   MaxRounds = 0
   ScenLen = 9
   MaxSignFail = 1
+  History = FALSE
   Matrix = FALSE
 INVARIANTS Emit
 CHECK_DEADLOCK FALSE
